@@ -213,3 +213,108 @@ Proof.
   apply seq_nth_error in Hi. apply seq_nth_error in Hj. lia.
 Qed.
 
+
+(* ---------- update_at / f_set versus sub / active ---------- *)
+Lemma f_get_map_upd f n m (h : forest -> forest) :
+  f_get (map (fun t => if Nat.eqb (t_name t) n then Node n (h (t_children t)) else t) f) m =
+  if Nat.eqb m n then option_map h (f_get f n) else f_get f m.
+Proof.
+  induction f as [|[k c] r IH]; cbn [map f_get t_name t_children].
+  - now destruct (Nat.eqb m n).
+  - destruct (Nat.eqb k n) eqn:E1.
+    + apply Nat.eqb_eq in E1. subst k. cbn [f_get]. destruct (Nat.eqb m n) eqn:E2.
+      * apply Nat.eqb_eq in E2. subst m. rewrite Nat.eqb_refl. reflexivity.
+      * rewrite ?(Nat.eqb_sym n m), ?E2. rewrite IH, ?E2. reflexivity.
+    + cbn [f_get]. destruct (Nat.eqb k m) eqn:E3.
+      * apply Nat.eqb_eq in E3. subst m. rewrite E1. reflexivity.
+      * exact IH.
+Qed.
+
+(* below the updated node: what g produced *)
+Lemma sub_update_below : forall base f g sc q,
+  sub f base = Some sc -> sub (update_at f base g) (base ++ q) = sub (g sc) q.
+Proof.
+  induction base as [|n b IH]; intros f g sc q H; cbn in *.
+  - injection H as <-. reflexivity.
+  - rewrite (f_get_map_upd f n n (fun c => update_at c b g)), Nat.eqb_refl.
+    destruct (f_get f n) as [ch|]; [|discriminate]. cbn. apply IH. exact H.
+Qed.
+
+(* a path that does not pass through the updated node keeps its status *)
+Lemma active_update_other : forall base f g p,
+  ~ is_prefix base p -> active (update_at f base g) p = active f p.
+Proof.
+  induction base as [|n b IH]; intros f g p NP.
+  - exfalso. apply NP. exists p. reflexivity.
+  - destruct p as [|m r]; [reflexivity|]. unfold active in *. cbn [update_at sub].
+    rewrite (f_get_map_upd f n m (fun c => update_at c b g)). destruct (Nat.eqb m n) eqn:E.
+    + apply Nat.eqb_eq in E. subst m. destruct (f_get f n) as [ch|]; [|reflexivity]. cbn.
+      apply IH. intros [q Hq]. apply NP. exists q. cbn. now rewrite Hq.
+    + reflexivity.
+Qed.
+
+Lemma f_get_f_set f k v m : f_get (f_set f k v) m = if Nat.eqb m k then Some v else f_get f m.
+Proof.
+  induction f as [|[j c] r IH]; cbn [f_set f_get].
+  - rewrite (Nat.eqb_sym k m). destruct (Nat.eqb m k); reflexivity.
+  - destruct (Nat.eqb j k) eqn:E1.
+    + apply Nat.eqb_eq in E1. subst j. cbn [f_get]. rewrite (Nat.eqb_sym k m). destruct (Nat.eqb m k) eqn:E2; reflexivity.
+    + cbn [f_get]. destruct (Nat.eqb j m) eqn:E3.
+      * apply Nat.eqb_eq in E3. subst m. rewrite E1. reflexivity.
+      * exact IH.
+Qed.
+
+Lemma active_app f a q : active f (a ++ q) = match sub f a with Some g => active g q | None => false end.
+Proof.
+  unfold active. revert f; induction a as [|n r IH]; intros f; cbn; [reflexivity|].
+  destruct (f_get f n) as [ch|]; [apply IH|reflexivity].
+Qed.
+
+(* ---------- chain_tree / prefixes_from ---------- *)
+Lemma active_chain : forall d bottom q,
+  d <> [] -> q <> [] ->
+  active (chain_tree d bottom) q = true <->
+  ((exists r, d = q ++ r) \/ (exists r, q = d ++ r /\ r <> [] /\ active bottom r = true)).
+Proof.
+  induction d as [|n d' IH]; intros bottom q Hd Hq; [congruence|].
+  destruct q as [|m q']; [congruence|]. unfold active. cbn [chain_tree sub f_get].
+  destruct (Nat.eqb n m) eqn:E.
+  - apply Nat.eqb_eq in E. subst m. destruct d' as [|n2 d2].
+    + cbn [chain_tree]. destruct q' as [|m2 q2].
+      * split; [intros _; left; exists []; reflexivity|reflexivity].
+      * split.
+        -- intros H. right. exists (m2 :: q2). repeat split; [discriminate|exact H].
+        -- intros [[r Hr]|[r [Hr [_ Ha]]]]; [destruct q2; discriminate|]. injection Hr as <-. exact Ha.
+    + destruct q' as [|m2 q2].
+      * split; [intros _; left; exists (n2 :: d2); reflexivity|reflexivity].
+      * specialize (IH bottom (m2 :: q2) ltac:(discriminate) ltac:(discriminate)). unfold active in IH. rewrite IH. split.
+        -- intros [[r Hr]|[r [Hr Hr2]]]; [left; exists r; cbn; now rewrite Hr|right; exists r; split; [cbn; now rewrite Hr|exact Hr2]].
+        -- intros [[r Hr]|[r [Hr Hr2]]]; [left; exists r; cbn in Hr; injection Hr; intros; cbn; congruence
+                                          |right; exists r; split; [cbn in Hr; injection Hr; intros; cbn; congruence|exact Hr2]].
+  - split; [discriminate|]. apply Nat.eqb_neq in E.
+    intros [[r Hr]|[r [Hr _]]]; injection Hr; intros; congruence.
+Qed.
+
+Lemma in_prefixes_from : forall d base p,
+  In p (prefixes_from base d) <-> exists q r, q <> [] /\ d = q ++ r /\ p = base ++ q.
+Proof.
+  induction d as [|n d' IH]; intros base p; cbn [prefixes_from].
+  - split; [intros []|]. intros (q & r & Hq & H & _). destruct q; [congruence|discriminate].
+  - split.
+    + intros [<-|H].
+      * exists [n], d'. repeat split. discriminate.
+      * apply IH in H as (q & r & Hq & -> & ->). exists (n :: q), r. repeat split; [discriminate|]. now rewrite <- app_assoc.
+    + intros (q & r & Hq & H & ->). destruct q as [|m q']; [congruence|]. injection H as <- ->.
+      destruct q' as [|m2 q2]; [now left|right]. apply IH. exists (m2 :: q2), r. repeat split; [discriminate|].
+      now rewrite <- app_assoc.
+Qed.
+
+Lemma prefixes_from_lengths : forall d base,
+  nondecr (map (@length nat) (prefixes_from base d)) /\
+  (forall x, In x (map (@length nat) (prefixes_from base d)) -> length base < x <= length base + length d).
+Proof.
+  induction d as [|n d' IH]; intros base; cbn [prefixes_from map]; [split; [exact I|intros x []]|].
+  destruct (IH (base ++ [n])) as [I1 I2]. rewrite app_length in I2. cbn in I2. split.
+  - split; [|exact I1]. apply Forall_forall. intros y Hy. specialize (I2 y Hy). rewrite app_length. cbn. lia.
+  - intros x [<-|Hx]; [rewrite app_length; cbn; lia|]. specialize (I2 x Hx). cbn. lia.
+Qed.
